@@ -83,10 +83,11 @@ def kind3(ctx):
     # the four excitation tables are identified by their position in the returned tuple
     # (Acre, Ades, Bcre, Bdes, coeff, ref_det), not by what the local variables are called
     role: Dict[str, str] = {}
-    rets = [st for st in node.body if isinstance(st, ast.Return)]
-    if rets and isinstance(rets[-1].value, ast.Tuple) and len(rets[-1].value.elts) == 6 and all(
-            isinstance(e_, ast.Name) for e_ in rets[-1].value.elts):
-        role = dict(zip(("Acre", "Ades", "Bcre", "Bdes", "coeff", "ref_det"), [e_.id for e_ in rets[-1].value.elts]))
+    from ..model import returned_values
+    rets = [v_ for _, v_ in returned_values(node, top_level_only=True)]
+    if rets and isinstance(rets[-1], ast.Tuple) and len(rets[-1].elts) == 6 and all(
+            isinstance(e_, ast.Name) for e_ in rets[-1].elts):
+        role = dict(zip(("Acre", "Ades", "Bcre", "Bdes", "coeff", "ref_det"), [e_.id for e_ in rets[-1].elts]))
     else:
         raise AnalysisError("get_excitations: does not return the 6-tuple (Acre, Ades, Bcre, Bdes, coeff, ref_det)")
     # rank maps: names bound to np.cumsum(<ref occupation>) - 1
@@ -389,8 +390,9 @@ def _coeff_pairing(ctx, fi, ev):
 def producer_pairing(ctx):
     p = ctx.p
     fi = p.func(f"{PI}.get_excitations")
-    rets = [n for n in fi.node.body if isinstance(n, ast.Return)]
-    elts = rets[-1].value.elts if rets and isinstance(rets[-1].value, ast.Tuple) else []
+    from ..model import returned_values
+    rets = [v_ for _, v_ in returned_values(fi.node, top_level_only=True)]
+    elts = rets[-1].elts if rets and isinstance(rets[-1], ast.Tuple) else []
     ms = p.func("wavefunctions.multislater._calc_overlap")
     wd_name = [prm.name for prm in ms.params][-1]
     read = []
